@@ -44,6 +44,7 @@ import GM.Props.C16E2E
 import GM.Props.ConvertE2ENT
 import GM.Props.ConvertE2ENP
 import GM.Props.ConvertL
+import GM.Props.ConvertE2EAll
 
 namespace GM.Props.C01
 open GM
@@ -593,5 +594,8 @@ theorem convertgfm_never_loops : type_of% @GM.Props.ConvertL.convertgfm_never_lo
 /-- (re-export of `GM.Props.ConvertL.inline_loop_l_total`) the inline loop of a block under any of the 16 member sets FINISHES behind the run-time check: no Go panic of any parser —
     in particular none of `(*linkifyParser).Parse`'s unguarded index expressions —, no fuel exhaustion -/
 theorem inline_loop_l_total : type_of% @GM.Props.ConvertL.inline_loop_l_total := @GM.Props.ConvertL.inline_loop_l_total
+
+/-- (re-export of `GM.Props.ConvertE2EAll.no_renderer_side_panic`) `no_renderer_side_panic` — the statement `GM.Props.ConvertE2E.NoRendererSidePanic` (kept there as a `def`) is a theorem -/
+theorem no_renderer_side_panic : type_of% @GM.Props.ConvertE2EAll.no_renderer_side_panic := @GM.Props.ConvertE2EAll.no_renderer_side_panic
 
 end GM.Props.C01
